@@ -24,6 +24,10 @@ type RunOp struct {
 	// SecondContext: another context over a scratch copy of the world is created before this run's
 	// context and executed while it is alive (two contexts in one process at the same time).
 	SecondContext bool `json:"second_context,omitempty"`
+	// KeepExecutor / ReuseExecutor: the executor of this run stays alive in the worker / this run calls
+	// Execute on the executor the previous run kept (same process, same entrypoints, no edit in between).
+	KeepExecutor  bool `json:"keep_executor,omitempty"`
+	ReuseExecutor bool `json:"reuse_executor,omitempty"`
 	// RetrySameExecutor: if Execute fails, the caller calls Execute again on the same executor.
 	RetrySameExecutor bool `json:"retry_same_executor,omitempty"`
 	// GoMaxProcs of the (fresh) worker process: go/packages parses and type-checks in parallel, and
